@@ -177,8 +177,14 @@ func (fst *FSTree) Query(q *query.Query, local, internal bool) (*iterator.Iterat
 	fileInfo, err := os.Stat(walkPrefix)
 	var walkRoot string
 	switch {
-	case err == nil && fileInfo.IsDir():
+	case err == nil && fileInfo.IsDir() &&
+		(walkPrefix == fst.basePath || strings.HasSuffix(q.DatabaseKeyPrefix(), "/")):
 		walkRoot = walkPrefix
+	case err == nil && fileInfo.IsDir():
+		// The prefix names a directory, but is not limited to it: siblings
+		// such as "<prefix>x" match too. Walk the parent, the key prefix is
+		// applied to every file.
+		walkRoot = filepath.Dir(walkPrefix)
 	case err == nil:
 		walkRoot = filepath.Dir(walkPrefix)
 	case errors.Is(err, fs.ErrNotExist):
